@@ -7,6 +7,7 @@ CONSTANT Clock <- T_Clock
 CONSTANT DefaultRk = "rk1"
 CONSTANT ReplyKinds <- T_Kinds
 CONSTANT LaterReplies = FALSE
+CONSTANT Cancels = FALSE
 CONSTANT SyncFlavours <- T_Sync
 INIT TInit
 NEXT TNext
